@@ -390,11 +390,12 @@ def here_uses(rng, name, opts):
     opts[:] = [(k, d[k]) for k, _ in opts if k in d] + [(k, v) for k, v in d.items() if k not in dict(opts)]
 
 
-def gen_program_opts(rng, name, scratch, kind='program', rich=None, inherited=None, here_heavy=False):
+def gen_program_opts(rng, name, scratch, kind='program', rich=None, inherited=None, here_heavy=False, full=False):
     """[(key, value)] for one [program:x]-like section, plus the facts the monitors need.
     inherited: when given ({variable: plain}), some sections additionally get the thread_env dimension.
-    here_heavy: most sections use %(here)s (the include-layout dimension)."""
-    rich = rng.random() < 0.7 if rich is None else rich
+    here_heavy: most sections use %(here)s (the include-layout dimension).
+    full: the section sets EVERY option of the pool (the 'every expandable option' dimension of C14)."""
+    rich = True if full else (rng.random() < 0.7 if rich is None else rich)
     facts = {'name': name, 'kind': kind}
     n = 1
     start = 0
@@ -431,7 +432,7 @@ def gen_program_opts(rng, name, scratch, kind='program', rich=None, inherited=No
     if rng.random() < 0.5:
         env = rng.choice(['A=1', 'A="1",B=\'two\'', 'PORT="80%(process_num)02d"', 'X=%(ENV_VERIF_A)s,Y="%(program_name)s"',
                           'PATH="/bin:/usr/bin",LANG=C', 'A=1,A=2', 'K="v w", Z=/a/b.c+d-e(f):g', 'N=%(numprocs)d',
-                          'GLOBAL="prog"', 'A="x,y",B=z'])
+                          'GLOBAL="prog"', 'A="x,y",B=z', ''])        # '' = present but empty: no variable
         opts.append(('environment', env))
     facts['environment'] = env
     if rich:
@@ -442,7 +443,7 @@ def gen_program_opts(rng, name, scratch, kind='program', rich=None, inherited=No
             ('startretries', lambda: str(rng.choice([0, 1, 3, 10]))),
             ('stopsignal', lambda: rng.choice(SIGS)),
             ('stopwaitsecs', lambda: str(rng.choice([0, 1, 10, 30, 600]))),
-            ('exitcodes', lambda: rng.choice(['0', '0,2', '1', '0, 1 ,2', '255', '0,0', '2,0'])),
+            ('exitcodes', lambda: rng.choice(['0', '0,2', '1', '0, 1 ,2', '255', '0,0', '2,0', '', ''])),    # '' = no expected exit status
             ('stdout_capture_maxbytes', lambda: rng.choice(SIZES)),
             ('stderr_capture_maxbytes', lambda: rng.choice(SIZES)),
             ('stdout_events_enabled', lambda: pick_bool(rng)),
@@ -465,7 +466,7 @@ def gen_program_opts(rng, name, scratch, kind='program', rich=None, inherited=No
         ]
         if kind != 'eventlistener':
             pool.append(('redirect_stderr', lambda: pick_bool(rng)))
-        k = rng.randrange(1, 9)
+        k = len(pool) if full else rng.randrange(1, 9)
         for key, gen in rng.sample(pool, k):
             opts.append((key, gen()))
         # stopasgroup / killasgroup: only the allowed combinations
@@ -508,11 +509,13 @@ SUPENV_INHERIT = [
 OSENV_INHERIT = {'VERIF_A': True, 'VERIF_B': True, 'VERIF_N': True}
 
 
-def gen_config(rng, scratch, small=False, perproc=False, layout=False):
+def gen_config(rng, scratch, small=False, perproc=False, layout=False, servers=False, full=False):
     """-> dict(sections=[(name, [(k, v)])], facts=..., include=[indices of sections placed in an included file])
     perproc: add the dimension 'numprocs > 1 x environment= referring to its own inherited ENV_ variable (from os.environ
     and from the [supervisord] environment) x use of the program's value in command/directory/log files/process_name'
-    layout: add the dimension 'sections spread over included files' (gen_layout; most sections then use %(here)s)"""
+    layout: add the dimension 'sections spread over included files' (gen_layout; most sections then use %(here)s)
+    servers: add [unix_http_server] / [inet_http_server] sections (gen_servers)
+    full: every program-like section sets every option of the pool"""
     names = rng.sample(NAMES, len(NAMES))
     nprog = rng.choice([1, 1, 2, 2, 3, 4]) if small else rng.choice([1, 2, 2, 3, 3, 4, 5, 6])
     sections = []
@@ -540,7 +543,7 @@ def gen_config(rng, scratch, small=False, perproc=False, layout=False):
     progs = []
     for _ in range(nprog):
         nm = names.pop()
-        opts, f = gen_program_opts(rng, nm, scratch, inherited=inherited, here_heavy=layout)
+        opts, f = gen_program_opts(rng, nm, scratch, inherited=inherited, here_heavy=layout, full=full)
         sections.append(('program:' + nm, opts))
         facts['programs'].append(f)
         progs.append(nm)
@@ -561,7 +564,7 @@ def gen_config(rng, scratch, small=False, perproc=False, layout=False):
     # event listeners
     while rng.random() < 0.35:
         nm = names.pop()
-        opts, f = gen_program_opts(rng, nm, scratch, kind='eventlistener', rich=rng.random() < 0.3, inherited=inherited, here_heavy=layout)
+        opts, f = gen_program_opts(rng, nm, scratch, kind='eventlistener', rich=rng.random() < 0.3, inherited=inherited, here_heavy=layout, full=full)
         evs = rng.sample(event_names(), rng.randrange(1, 4))
         if rng.random() < 0.3:
             evs.append(evs[0])
@@ -580,7 +583,7 @@ def gen_config(rng, scratch, small=False, perproc=False, layout=False):
     # fastcgi
     while rng.random() < 0.2:
         nm = names.pop()
-        opts, f = gen_program_opts(rng, nm, scratch, kind='fcgi', rich=rng.random() < 0.3, inherited=inherited, here_heavy=layout)
+        opts, f = gen_program_opts(rng, nm, scratch, kind='fcgi', rich=rng.random() < 0.3, inherited=inherited, here_heavy=layout, full=full)
         sock = rng.choice(['tcp://localhost:9%03d' % rng.randrange(1000), 'tcp://Host.Example:80', 'unix:///tmp/%(program_name)s.sock',
                            'unix://' + scratch + '/f.sock'])
         opts.append(('socket', sock))
@@ -592,6 +595,9 @@ def gen_config(rng, scratch, small=False, perproc=False, layout=False):
         sections.append(('fcgi-program:' + nm, opts))
         f['socket'] = sock
         facts['fcgi'].append(f)
+    if servers:
+        facts['servers'] = gen_servers(rng, scratch)
+        sections.extend(facts['servers'])
     # section order is free in the file format
     head, tail = sections[:1], sections[1:]
     rng.shuffle(tail)
@@ -606,6 +612,44 @@ def gen_config(rng, scratch, small=False, perproc=False, layout=False):
         cand = [i for i, (s, _) in enumerate(sections) if s != 'supervisord']
         include = sorted(rng.sample(cand, rng.randrange(1, len(cand))))
     return {'sections': sections, 'facts': facts, 'include': include}
+
+
+SERVER_COMBOS = [['unix'], ['inet'], ['unix', 'inet'], ['inet', 'unix'], []]
+SERVER_PASSWORDS = ['secret', 'p w', '{SHA}82ab876d1387bfafe46cc1c8a2ef074eae50cb1d', '123', 'pa:ss']
+
+
+def gen_servers(rng, scratch, combo=None):
+    """[(section, [(k, v)])]: the http server sections of a file -- none, unix only, inet only, both (either order); socket path /
+    port forms, optional chmod / chown, optional credentials (plain and {SHA})"""
+    secs = []
+    for k in (combo if combo is not None else rng.choice(SERVER_COMBOS)):
+        opts = []
+        if k == 'unix':
+            opts.append(('file', rng.choice(['/tmp/verif_sv.sock', scratch + '/sv.sock', '%(here)s/sv.sock', '/tmp/%(ENV_VERIF_A)s.sock'])))
+            if rng.random() < 0.5:
+                opts.append(('chmod', rng.choice(['0700', '0770', '0777', '700'])))
+            if rng.random() < 0.3:
+                opts.append(('chown', rng.choice(['root', 'root:root'])))
+        else:
+            opts.append(('port', rng.choice(['127.0.0.1:9%03d' % rng.randrange(1000), '*:9001', ':9002', '9003', 'localhost:9004'])))
+        if rng.random() < 0.7:
+            opts.append(('username', rng.choice(['admin', 'user', 'u-1'])))
+            opts.append(('password', rng.choice(SERVER_PASSWORDS)))
+        rng.shuffle(opts)
+        secs.append((k + '_http_server', opts))
+    return secs
+
+
+def server_lines(o):
+    """the parsed http server configurations (section.server_configs) in canonical form"""
+    import socket
+    out = []
+    for c in o.configroot.supervisord.server_configs:
+        fam = {socket.AF_INET: 'inet', socket.AF_UNIX: 'unix'}.get(c.get('family'), repr(c.get('family')))
+        out.append('srv %s family=%s host=%s port=%s file=%s user=%s pass=%s chmod=%s chown=%s' % (
+            hx(c.get('section', '')), fam, _opt_s(c.get('host')), c.get('port'), _opt_s(c.get('file')), _opt_s(c.get('username')),
+            _opt_s(c.get('password')), c.get('chmod'), c.get('chown')))
+    return out
 
 
 # ---------------------------------------------------------------------------------------------------
@@ -846,6 +890,8 @@ OPT_CLASS = {
     'umask': 'umask',
 }
 EXPANDED_OPTS = ['command', 'directory', 'stdout_logfile', 'stderr_logfile', 'process_name', 'environment']
+EMPTY_VALUE_OPTS = sorted(set(OPT_CLASS) | {'exitcodes', 'environment', 'directory', 'user', 'serverurl', 'stdout_logfile', 'stderr_logfile',
+                                            'process_name', 'command'})
 
 
 def _with(sections, si, opts):
@@ -916,6 +962,11 @@ def corruptions(rng, cfg, per_class=1, everything=False):
         res.append(('unknown-user', True, _with(secs, si, _set(opts, 'user', rng.choice(['no-such-user-verif', '4123456789'])))))
         for bad in some(['A', 'A=', 'A=1,B', 'A="x', "A='x", '=1', 'A=1 B=2 C'], per_class):
             res.append(('malformed-environment:%r' % bad, True, _with(secs, si, _set(opts, 'environment', bad))))
+        # boundary: an option that is present but empty (outcome not prescribed in general; where it is accepted the value
+        # must be the empty value of the option's type -- c14 monitor_written -- and the model must agree)
+        for opt in some(EMPTY_VALUE_OPTS, 3):
+            if not (kind == 'eventlistener' and opt == 'redirect_stderr'):
+                res.append(('empty-value:%s' % opt, None, _with(secs, si, _set(opts, opt, ''))))
         # outcome not prescribed
         if opts:
             k, v = rng.choice(opts)
